@@ -23,6 +23,13 @@ SEEDS = {
     "C06-1": ("C06", None),
     "C11-1": ("C11", None),
     "C03-1": ("C03", None),
+    "C08-2": ("C08", ["c08_fp61_const_truncate_contract"]),
+    "C13-2": ("C13", ["c13_send_config", "c13_send_config_grid_rec3"]),
+    "C14-2": ("C14", ["c14_circular_cursors", "c14_cursor_contracts_k", "c14_take_contract"]),
+    "C15-1": ("C15", None),
+    "C10-1": ("C10", ["c10_conversion_info_enc_bytes_layout"]),
+    "C17-1": ("C17", None),
+    "C01-1": ("C01", None),
 }
 
 
